@@ -14,8 +14,10 @@ pub struct NodeDriver {
     pool: PoolDriver,
     votor: VotorDriver,
     own: usize,
-    chan: VecDeque<Value>,
+    /// (number of the pool call that emitted it, event)
+    chan: VecDeque<(u64, Value)>,
     bchan: VecDeque<Value>,
+    calls: u64,
 }
 
 impl NodeDriver {
@@ -26,11 +28,13 @@ impl NodeDriver {
             own,
             chan: VecDeque::new(),
             bchan: VecDeque::new(),
+            calls: 0,
         }
     }
 
     /// real pool events (JSON of the pool driver) -> the event format of the votor driver
     fn enqueue_pool_events(&mut self, got: &Value) {
+        self.calls += 1;
         for e in got["ev"].as_array().cloned().unwrap_or_default() {
             let v = match e["t"].as_str().unwrap_or("") {
                 "ParentReady" => json!({"t": "ParentReady", "s": e["s"], "p": e["b"]}),
@@ -39,7 +43,7 @@ impl NodeDriver {
                 "Cert" => json!({"t": "Cert", "c": e["c"]}),
                 _ => continue,
             };
-            self.chan.push_back(v);
+            self.chan.push_back((self.calls, v));
         }
     }
 }
@@ -79,8 +83,22 @@ impl Driver for NodeDriver {
                 json!({"pool": none_pool, "votor": none_votor, "panic": ""})
             }
             "vpool" | "vbs" => {
-                let q = if op == "vpool" { &mut self.chan } else { &mut self.bchan };
-                let Some(head) = q.pop_front() else {
+                let head = if op == "vpool" {
+                    // FIFO between pool calls; the order of the events ONE call emits is not a contract (the pool
+                    // replay compares them as a multiset), so the spec's next event may be any event of the batch
+                    // at the head of the real queue
+                    let batch = self.chan.front().map(|x| x.0);
+                    let pos = self
+                        .chan
+                        .iter()
+                        .take_while(|x| Some(x.0) == batch)
+                        .position(|x| x.1 == act["e"])
+                        .unwrap_or(0);
+                    self.chan.remove(pos).map(|x| x.1)
+                } else {
+                    self.bchan.pop_front()
+                };
+                let Some(head) = head else {
                     return json!({"pool": none_pool, "votor": none_votor, "panic": "harness: empty queue"});
                 };
                 let vop = if op == "vpool" { "pool" } else { "bs" };
